@@ -330,6 +330,15 @@ def check(pid, tier, seed, t0, st, replay):
             else:
                 cst = scan.parse_cases_cst(work + '/cases.txt') if pid == 'C03' else None
                 stats, kinds = run_oracles(pid, ex['recs'], res, cst)
+                if pid in ('C04', 'C09'):
+                    # the same inputs through the real read path (readFile -> parser -> builder -> merge)
+                    dstats, dbad = scan.disk_locations(cases, work, B + '/harness')
+                    stats.update({'disk_' + k: v for k, v in dstats.items()})
+                    for b_ in dbad[:5]:
+                        if 'case' in b_:
+                            res.violations.append(replay_payload(pid, b_['case'], b_['what'] + ' (scanned from disk with graph.Initialize)', b_['detail']))
+                        else:
+                            res.violations.append(dict(property=pid, what=b_['what'], detail=b_.get('file', '')))
                 notwf = [cid for cid, r in ex['recs'].items() if r.get('wf') is False]
                 if notwf:
                     res.tie_broken.append('cst_wfb (assumption about tree-sitter) false on %d trees, e.g. %s' % (len(notwf), notwf[0]))
